@@ -31,6 +31,7 @@ RULE = (
     "non-trivial = at least one cache hit and one eviction/miss after a hit"
 )
 RULE += " Sphere2Sphere targets may have a partner moved explicitly in time (same q, different t) and a second contact on the same free sphere (identical local coordinates); caches that live on a class instead of the instance are emptied before every evaluation of the twin."
+RULE += " A third of the histories hand over the caller's own argument buffers (the same array objects refilled in place) instead of fresh arrays."
 COMPONENTS = {
     "real": [
         "cardillo.discrete.RigidBody",
@@ -317,10 +318,32 @@ def gen(rng, tier, index):
             }
         )
     plan["ops"] = ops
+    # a third of the histories hand over the caller's own buffers: the same array objects with new contents
+    plan["caller_buffers"] = bool((index // 4) % 3 == 1)
     return plan
 
 
 # ------------------------------------------------------------------ targets
+class Buffers:
+    """The caller's own argument arrays: with ``on`` the same array objects are handed over at every evaluation,
+    refilled in place with the new values (a Newton loop writing its iterates into one buffer); otherwise fresh
+    arrays every time."""
+
+    def __init__(self, on):
+        self.on = bool(on)
+        self.store = {}
+
+    def get(self, key, value):
+        if not self.on:
+            return value
+        buf = self.store.get(key)
+        if buf is None or buf.shape != value.shape:
+            buf = self.store[key] = np.array(value, dtype=float)
+        else:
+            buf[...] = value
+        return buf
+
+
 def _pick(pool, i):
     return pool[i % len(pool)]
 
@@ -343,15 +366,17 @@ class RigidTarget:
         self.body = RigidBody(2.0, np.diag([1.0, 2.0, 3.0]))
         self.roots = [self.body]
         self.pool = plan["pool"]
+        self.buf = Buffers(plan.get("caller_buffers"))
 
     def args(self, a):
         P = self.pool
+        g = self.buf.get
         return (
             float(_pick(P["t"], a[0])),
-            np.array(_pick(P["q"], a[1]), dtype=float),
-            np.array(_pick(P["u"], a[2]), dtype=float),
-            np.array(_pick(P["B"], a[3]), dtype=float),
-            np.array(_pick(P["u"], a[4]), dtype=float),
+            g("q", np.array(_pick(P["q"], a[1]), dtype=float)),
+            g("u", np.array(_pick(P["u"], a[2]), dtype=float)),
+            g("B", np.array(_pick(P["B"], a[3]), dtype=float)),
+            g("ud", np.array(_pick(P["u"], a[4]), dtype=float)),
         )
 
     def eval(self, m, a, style):
@@ -437,17 +462,19 @@ class S2STarget:
         self.system, self.bodies, self.cs = _build_s2s(plan, self.pool["q"][0], self.pool["u"][0])
         self.c = self.cs[0]
         self.roots = list(self.cs) + self.bodies
+        self.buf = Buffers(plan.get("caller_buffers"))
 
     def args(self, a):
         P = self.pool
         i = a[1]
+        g = self.buf.get
         return (
             float(_pick(P["t"], a[0])),
-            np.array(_pick(P["q"], i), dtype=float),
-            np.array(_pick(P["u"], a[2]), dtype=float),
-            np.array(_pick(P["la"], a[3]), dtype=float),
-            np.array(_pick(P["laN"], a[3]), dtype=float),
-            np.array(_pick(P["u"], a[4]), dtype=float),
+            g("q", np.array(_pick(P["q"], i), dtype=float)),
+            g("u", np.array(_pick(P["u"], a[2]), dtype=float)),
+            g("la", np.array(_pick(P["la"], a[3]), dtype=float)),
+            g("laN", np.array(_pick(P["laN"], a[3]), dtype=float)),
+            g("ud", np.array(_pick(P["u"], a[4]), dtype=float)),
         )
 
     def eval(self, m, a, style):
@@ -499,15 +526,17 @@ class RodTarget:
             self.Qs.append(rod.Q + 0.02 * srng.normal(size=rod.nq))
         self.Qs.append(rod.Q.copy())
         self.roots = [rod]
+        self.buf = Buffers(plan.get("caller_buffers"))
 
     def args(self, a):
         P = self.pool
+        g = self.buf.get
         return (
             float(_pick(P["t"], a[0])),
-            _pick(self.qs, a[1]).copy(),
-            _pick(self.us, a[2]).copy(),
+            g("q", _pick(self.qs, a[1]).copy()),
+            g("u", _pick(self.us, a[2]).copy()),
             _xi_value(_pick(P["xi"], a[3])),
-            np.array(_pick(P["B"], a[4]), dtype=float),
+            g("B", np.array(_pick(P["B"], a[4]), dtype=float)),
         )
 
     def eval(self, m, a, style):
@@ -666,6 +695,8 @@ def execute(plan, out, log):
     out["steps"] = len(plan["ops"])
     out["nontrivial"] = had_hit and miss_after_hit
     variant = plan["target"]
+    if plan.get("caller_buffers"):
+        out["probes"]["caller_owned_argument_buffers"] += 1
     if plan["pool"].get("hash_twins"):
         out["probes"]["hash_twin_arguments"] += 1
     if plan["target"] == "s2s":
